@@ -442,6 +442,15 @@ func Exec(t Target, w *World) *Result {
 			must(os.Symlink("nowhere-to-be-found.yaml", inPath(f.Path)))
 		case "fifo":
 			must(syscall.Mkfifo(inPath(f.Path), 0644))
+		case "link":
+			// the file is a symbolic link to a regular file kept outside the working directory (a linked
+			// fragment, a sandboxed build's input farm): reading it gives the same bytes
+			store := filepath.Join(top, "store")
+			must(os.MkdirAll(store, 0755))
+			target := filepath.Join(store, fmt.Sprintf("f%d.data", fi))
+			must(os.WriteFile(target, []byte(f.Content), mode))
+			_ = os.Chtimes(target, time.Now().Add(-2*time.Hour), time.Now().Add(-2*time.Hour))
+			must(os.Symlink(target, inPath(f.Path)))
 		default:
 			must(os.WriteFile(inPath(f.Path), []byte(f.Content), mode))
 		}
